@@ -112,6 +112,18 @@ def spin_site(world):
     return hit
 
 
+def frozen_violation(world, subject="server"):
+    """violation dict for a run that ended with outcome 'spin' inside aioftp code (a callback that
+    never returned to the loop: busy loop or a blocking wait - a real server would be frozen for
+    all its sessions); None when the outcome is something else or the spinning code is the harness"""
+    if getattr(world, "outcome", None) != "spin":
+        return None
+    site = spin_site(world)
+    if site is None:
+        return None
+    return {"clause": "event-loop-frozen", "subject": f"{subject}:{site[0]}", "detail": f"a single callback never returned to the event loop (stuck in {site[0]} at {site[1]}): the whole server is frozen"}
+
+
 class Pool:
     def __init__(self, nproc=None):
         self.nproc = nproc or NPROC
